@@ -56,7 +56,7 @@ func envAt(pkg *types.Package, pos token.Pos) []int {
 	return env
 }
 
-var atomNames = map[string]string{"A": "A", "P": "P", "PV": "PV", "V": "V", "C": "C", "T": "C"}
+var atomNames = map[string]string{"A": "A", "P": "P", "PV": "PV", "V": "V", "C": "C", "T": "C", "TV": "C"}
 
 // ScopeReport returns, per top-level function whose name starts with prefix, the sorted tokens
 // "<atom><n>:<visible names>" of every numbered atom call in its body.
